@@ -147,8 +147,10 @@ def res(synset1: Synset, synset2: Synset, ic: Freq) -> float:
 
     """
     _check_if_pos_compatible(synset1.pos, synset2.pos)
-    lcs = _most_informative_lcs(synset1, synset2, ic)
-    return information_content(lcs, ic)
+    # the maximum information content, i.e. that of the subsumer with
+    # the *lowest* weight (_most_informative_lcs() picks the highest)
+    lcs = _least_common_subsumers(synset1, synset2, False)
+    return max(information_content(ss, ic) for ss in lcs)
 
 
 def jcn(synset1: Synset, synset2: Synset, ic: Freq) -> float:
